@@ -193,7 +193,7 @@ struct Obs {
     statements: u64,
     budget_hit: bool,
     rows: BTreeSet<u32>,
-    depth_seen: HashMap<(usize, u64), [usize; 5]>,
+    depth_seen: HashMap<(usize, u64), [usize; 6]>,
     depth_anomaly: Option<String>,
     typed_anomaly: Option<String>,
 }
@@ -330,13 +330,13 @@ pub fn run(c: Compiled, opts: &RunOpts) -> RunOut {
                 }
                 if want_depths && o.depth_anomaly.is_none() {
                     // activation key: the call/gosub/handler history that led here
-                    let key = crate::engine::hash64(&(v.return_address_stack, v.go_sub_address_stack, v.context.verif_states_len(), v.stacktrace, v.last_error_address));
-                    let d = [v.value_stack, v.register_stack, v.var_path_stack, v.by_ref_stack, v.context.verif_argument_states_len()];
+                    let key = crate::engine::hash64(&(v.return_address_stack, v.go_sub_address_stack, v.stacktrace, v.last_error_address));
+                    let d = [v.value_stack, v.register_stack, v.var_path_stack, v.by_ref_stack, v.context.verif_argument_states_len(), v.context.verif_states_len()];
                     match o.depth_seen.get(&(v.index, key)) {
                         Some(prev) => {
                             if *prev != d {
                                 o.depth_anomaly = Some(format!(
-                                    "statement at instruction {} (row {}) revisited in the same activation with stack depths [value,register,var_path,by_ref,arg_states] {:?} then {:?}",
+                                    "statement at instruction {} (row {}) revisited in the same activation with stack depths [value,register,var_path,by_ref,arg_states,context_states] {:?} then {:?}",
                                     v.index, rows.get(v.index).copied().unwrap_or(0), prev, d
                                 ));
                             }
